@@ -187,6 +187,7 @@ func (s *Server) serveOne(ctx context.Context, r io.Reader, w io.Writer, shmConn
 				emptySchema := arrow.NewSchema(nil, nil)
 				s.logIPCWriteErr("error-response", req.Method,
 					writeErrorResponse(w, emptySchema, rpcErr, s.serverID, req.RequestID, s.debugErrors))
+				s.drainRefusedStreamInput(r, req.Method)
 				return nil
 			}
 			req.Batch.Release()
@@ -221,6 +222,7 @@ func (s *Server) serveOne(ctx context.Context, r io.Reader, w io.Writer, shmConn
 		emptySchema := arrow.NewSchema(nil, nil)
 		s.logIPCWriteErr("error-response", req.Method,
 			writeErrorResponse(w, emptySchema, rpcErr, s.serverID, req.RequestID, s.debugErrors))
+		s.drainRefusedStreamInput(r, req.Method)
 		return nil
 	}
 
@@ -351,6 +353,16 @@ func (s *Server) serveOne(ctx context.Context, r io.Reader, w io.Writer, shmConn
 	}
 
 	return transportErr
+}
+
+// drainRefusedStreamInput consumes the input stream of a stream call that is
+// refused before dispatch. The client of a stream method writes its input
+// stream before it reads the response, so leaving it on the wire would have it
+// read as the next request (or, when it carries no batch, as end of input).
+func (s *Server) drainRefusedStreamInput(r io.Reader, method string) {
+	if info, ok := s.methods[method]; ok && methodTypeString(info.Type) == DispatchMethodStream {
+		drainInputStream(r)
+	}
 }
 
 // serveUnary dispatches a unary method call.
